@@ -474,3 +474,42 @@ func max1(n int) int {
 func round2(f float64) float64 { return float64(int(f*100+0.5)) / 100 }
 
 func cmdSelftest(args []string) int { return 0 }
+
+// c09NativeDeterminism runs H09d natively on pseudo-random source bytes: the
+// confirmation channel for paths the engine had to stop at an unmodelled
+// environment call (math/rand, time, ...): if the real code's choices are not a
+// function of the source bytes, the native run shows it.
+func c09NativeDeterminism(ctx *checkCtx) {
+	rp, err := NewReplayer("spg")
+	if err != nil {
+		ctx.inconcl = append(ctx.inconcl, "native determinism run: build failed: "+firstLine(err.Error()))
+		return
+	}
+	defer rp.Close()
+	rng := uint64(ctx.seed)*6364136223846793005 + 1442695040888963407
+	runs, bad := 0, 0
+	for kind := 0; kind < 5; kind++ {
+		for rep := 0; rep < 4; rep++ {
+			tape := make([]byte, 512)
+			for i := range tape {
+				rng = rng*6364136223846793005 + 1442695040888963407
+				tape[i] = byte(rng >> 33)
+			}
+			rf := &ReplayFile{Property: "C09", Harness: "H09d", Tier: ctx.tier, Values: map[string]uint64{}, Bytes: map[string]string{}, Choices: map[string]int{"recipe": kind}, Tape: fmt.Sprintf("%x", tape), Expect: "native determinism run", Params: map[string]int{"recipes": 5}}
+			path := filepath.Join(verifDir, "replays", "C09", fmt.Sprintf("native-H09d-%d-%d.json", kind, rep))
+			writeJSON(path, rf)
+			_, verdict := rp.Run(path)
+			runs++
+			ctx.replays++
+			if verdict == "reproduced" {
+				bad++
+				ctx.reproduced++
+				ctx.violations = append(ctx.violations, fmt.Sprintf("VIOLATION property=C09 replay=%s", path))
+				ctx.notes = append(ctx.notes, "violation: native determinism run: the same recipe on the same source bytes made different choices (or consumed a different number of bytes)")
+				return
+			}
+			os.Remove(path)
+		}
+	}
+	ctx.extraEvidence["native_determinism_runs"] = runs
+}
